@@ -70,7 +70,8 @@ def gen(rng, tier, index):
             faults = [f for f in faults if f["k"] not in ("bitflip", "bang_inject", "nonascii_inject", "ident_damage", "ck_replace")]
     raw, _ = apply(spec, faults)
     pre = [rng.choice(ACCESSORS) for _ in range(rng.choice([0, 0, 0, 1, 2, 4]))]
-    yield {"spec": spec, "faults": faults, "pre": pre, "cuts": fragment.draw(rng, len(raw), [raw.find(b"!"), raw.find(b"!") + 1, raw.find(b"\n")])}
+    lead = rng.choice(["", "", "", "", "0d0a", "0a", "2d0a", "0d2a", "78", "000d0a", "20"])  # what precedes the start character when built from bytes
+    yield {"spec": spec, "faults": faults, "pre": pre, "lead": lead, "cuts": fragment.draw(rng, len(raw), [raw.find(b"!"), raw.find(b"!") + 1, raw.find(b"\n")])}
 
 
 def apply(spec, faults):
@@ -205,14 +206,23 @@ def execute(sc):
             judged += 1
     else:
         bump("read_raised")
+    lead = bytes.fromhex(sc.get("lead") or "")
     try:
-        direct = DataReadout(raw)
+        direct = DataReadout(lead + raw)
         bump("direct_construct")
     except Exception:  # noqa: BLE001 - constructor exceptions are outside the property
         direct = None
         bump("direct_construct_raised")
-    if direct is not None:
-        judge(direct, raw.lstrip(), add, bump, states, "direct", sc.get("pre") or ())
+    if direct is not None and lead.strip(b" \t\r\n\x0b\x0c"):
+        # the bytes do not begin with the start character (after white space): whatever the object reports, it must not be 'valid'
+        bump("direct_with_leading_junk")
+        try:
+            if direct.is_valid:
+                add("V1", "valid-although-bytes-do-not-start-with-identification", f"DataReadout({(lead + raw)[:30]!r}...) is_valid=True although {lead!r} precedes the start character")
+        except Exception:  # noqa: BLE001
+            bump("is_valid_raised")
+    elif direct is not None:
+        judge(direct, (lead + raw).lstrip(), add, bump, states, "direct", sc.get("pre") or ())
         judged += 1
     for k, v in fired.items():
         probes[f"fault_{k}"] = probes.get(f"fault_{k}", 0) + v
